@@ -148,6 +148,16 @@ class Checker:
             out.append({'function': c.label, 'requires_satisfiable': str(r)})
             if r == z3.unsat:
                 raise Unsupported(f'{c.label}: precondition is unsatisfiable (vacuous contract)')
+        for g, lm, ob, _ in self.items:
+            if ob.kind == 'lemma':
+                from .engine import _has_quantifier
+                s = z3.Solver()
+                s.set('timeout', 5000)
+                s.add(*[h for h in ob.pc if not _has_quantifier(h)])
+                r = s.check()
+                out.append({'lemma': ob.name, 'hypotheses_satisfiable(qf part)': str(r)})
+                if r == z3.unsat:
+                    raise Unsupported(f'{ob.name}: hypotheses are contradictory (vacuous lemma)')
         return out
 
     # ------------------------------------------------------------------ verdicts
